@@ -190,7 +190,7 @@ def unit_insertion_num(tier, n):
 def units(tier):
     u = []
     if tier == 'quick':
-        sorts = [(n, 32) for n in (0, 1, 2, 3, 4, 5)] + [(n, 2) for n in (2, 3, 4, 5, 6)]
+        sorts = [(n, 32) for n in (0, 1, 2, 3, 4, 5)] + [(n, 2) for n in (2, 3, 4, 5, 6)] + [(5, 1), (6, 1)]      # run length 1: six runs, i.e. three merge passes with an unpaired tail
         parts = [(n, k) for n in (1, 2, 3, 4, 5) for k in range(0, n + 2)]
         ins = [2, 3, 4, 5]
     else:
